@@ -471,14 +471,19 @@ def denote_terms(prog, env):
             tot = v if tot is None else tot + v
         return tot
 
+    def stack(vals, axis):
+        vals = [np.asarray(v, dtype=float) for v in vals]
+        shp = np.broadcast_shapes(*[v.shape for v in vals])
+        return np.stack([np.broadcast_to(v, shp) for v in vals], axis=axis)
+
     if not vec:
         return total({})
     if prog["arity"] == 1:
         name = next(iter(bf))
         nc = bf[name][0]
-        return np.stack([total({name: i}) for i in range(nc)], axis=-1)
+        return stack([total({name: i}) for i in range(nc)], -1)
     nu, nv = bf["u"][0] or 1, bf["v"][0] or 1
     rows = []
     for i in range(nv):
-        rows.append(np.stack([total({"u": j, "v": i}) for j in range(nu)], axis=-1))
-    return np.stack(rows, axis=-2)
+        rows.append(stack([total({"u": j, "v": i}) for j in range(nu)], -1))
+    return stack(rows, -2)
